@@ -270,7 +270,15 @@ pub fn gen_doc(rng: &mut Rng, n: usize) -> Vec<Node> {
                 match rng.below(4) {
                     0 => { el.push("wh", &r); ew = rw; eh = rh; fname = "size:wh=ref".to_string(); }
                     1 => { let p = *rng.pick(&[50, 25, 150, 200, 100]); el.push("wh", &format!("{r} {p}%")); ew = rw * p as f64 / 100.0; eh = rh * p as f64 / 100.0; fname = "size:wh=ref pct".to_string(); }
-                    2 => { let (a, b) = (rng.range(if rw > 4.0 { -2 } else { 1 }, 8), rng.range(if rh > 4.0 { -2 } else { 1 }, 8)); el.push("wh", &format!("{r} {a} {b}")); ew = rw + a as f64; eh = rh + b as f64; fname = "size:wh=ref dw dh".to_string(); }
+                    2 => { let (a, b) = (rng.range(if rw > 4.0 { -2 } else { 1 }, 8), rng.range(if rh > 4.0 { -2 } else { 1 }, 8)); { let sp = *rng.pick(&[" ", " ", ",", ", ", " , "]); el.push("wh", &format!("{r} {a}{sp}{b}")); } ew = rw + a as f64; eh = rh + b as f64; fname = "size:wh=ref dw dh".to_string(); }
+                    _ if rng.chance(1, 2) => {
+                        // one percentage per axis, separated by blanks or by a comma with optional blanks
+                        let (p, q) = (*rng.pick(&[50, 25, 150, 100]), *rng.pick(&[50, 20, 200, 100]));
+                        let sp = *rng.pick(&[" ", ",", ", ", " , "]);
+                        el.push("wh", &format!("{r} {p}%{sp}{q}%"));
+                        ew = rw * p as f64 / 100.0; eh = rh * q as f64 / 100.0;
+                        fname = "size:wh=ref pct pct".to_string();
+                    }
                     _ => { el.push("width", &format!("{r}~h")); el.push("height", &format!("{r}~w 50%")); ew = rh; eh = rw * 0.5; fname = "size:scalar".to_string(); }
                 }
                 if rng.chance(1, 3) {
